@@ -507,17 +507,22 @@ def Router.new (cfg : RouterCfg) : Router :=
 /-- bit pattern of `1.0_f64`, the cost every routed cache entry gets -/
 def COST_ONE : Nat := 4607182418800017408
 
+/-- the embedding branch of `put`: a `_embedding` vector of the slab's dimension is stored under the
+    entity id; with another length, another kind of value or no such field the slab entry of the id is
+    removed (the value itself always goes to the metadata slab) -/
+def ESlab.putValue (s : ESlab) (id : Nat) (value : TData) : ESlab :=
+  match value.embOf with
+  | some vec => (match s.set id vec with
+    | some e => e
+    | none => s.delete id)
+  | none => s.delete id
+
 /-- `SlabRouter::put` -/
 def Router.put (r : Router) (key : Name) (value : TData) (victim : Nat) : Router :=
   match classifyKey key with
   | .embedding =>
     let ic := r.index.getOrCreate key
-    let emb := match value.embOf with
-      | some vec => (match r.emb.set ic.2 vec with
-        | some e => e
-        | none => r.emb.delete ic.2)
-      | none => r.emb.delete ic.2
-    { r with index := ic.1, emb := emb, md := aInsert key value r.md }
+    { r with index := ic.1, emb := r.emb.putValue ic.2 value, md := aInsert key value r.md }
   | .cache => { r with cache := r.cache.put key value COST_ONE (value.length * 100) victim }
   | _ => { r with md := aInsert key value r.md }
 
